@@ -136,6 +136,33 @@ def _yield_event(t, control, status, top):
     return ev
 
 
+def _unreal(x, scale):
+    """share value -> program units (exact or a sentinel that no specification value equals)"""
+    if isinstance(x, (bool, str)):
+        return x
+    try:
+        f = Fraction(x) * scale
+    except (TypeError, ValueError):
+        return "<%s>" % type(x).__name__
+    return int(f) if f.denominator == 1 else "<off-grid %r>" % (x,)
+
+
+def _snapshot(store, prog, scale, fielded):
+    snap = {}
+    for s in prog.get("shares", {}):
+        sh = store.fetch(s)
+        if sh is None:
+            continue
+        try:
+            v = sh[emitter.MAIN] if s in fielded else sh.value
+        except Exception:
+            continue
+        if v is None:
+            continue       # never written yet: the specification's initial value is not observable
+        snap[s] = _unreal(v, scale)
+    return snap
+
+
 def _real(v, scale):
     """program units -> the Python value written into the share (exact: ints, dyadic floats)"""
     if isinstance(v, (bool, str)):
@@ -201,7 +228,11 @@ def run(prog, script=None, envs=None, max_ticks=8, quantum=None, workdir=None, k
                 REC.events.append({"ev": "Interrupt"})
                 raise KeyboardInterrupt()
         orig(self, stamp)
-        REC.events.append({"ev": "Tick", "n": n, "now": REC.q(stamp)})
+        ev = {"ev": "Tick", "n": n, "now": REC.q(stamp)}
+        snap = _snapshot(self, prog, scale, fielded)
+        if snap:
+            ev["store"] = snap      # values of the program's shares at the tick boundary (program units)
+        REC.events.append(ev)
         state["n"] = n + 1
 
     storing.Store.changeStamp = change_stamp
